@@ -725,6 +725,7 @@ def _filter(repo, col, R="R-C11-filter"):
         col.check(inds is not None and other not in t.kw and t.args[0].op == "param" and t.args[0].name == "self", R, fi,
                   f"{name}: View(self, {tbl}=...)", "only this table is filtered", f"View built as {t.short(120)}", node=call)
         ok = False
+        ix = isin = colname = None
         if inds is not None:
             inds = idx.inline(repo, fi, inds)  # a row-matching helper shared by _at_nodes/_at_edges is looked through
         detail = inds.short(140) if inds is not None else None
@@ -750,6 +751,20 @@ def _filter(repo, col, R="R-C11-filter"):
         col.check(ok, R, fi, f"{name}: rows of the view's own table whose <scope>_<key>_index is selected",
                   f"self.{tbl}.index[self.{tbl}[self._scope + '_<key>_index'].isin(idx)]",
                   f"{name} selects {detail}", node=call)
+        # "all" is expanded with the values of the SAME column the membership test reads (so it selects every row in view, in any scope)
+        if inds is not None and ix is not None and isin is not None and colname is not None:
+            arg = next((a_ for a_ in isin.args[1:] if a_.op != "free"), None)
+            # the index is `<column of the table> if <idx is "all"> else <reformatted idx>` (the helper that recognises "all" may be inlined)
+            is_col = lambda b: b.op == "sub" and b.args[0].op == "attr" and b.args[0].name == tbl
+            alt = T.find(arg, lambda x: x.op == "ifexp" and (is_col(x.args[1]) != is_col(x.args[2]))) if arg is not None else None
+            if alt is None:
+                col.unk(R, fi, f"{name}: 'all' selects every row in view", "the expansion of 'all' was not found", node=call)
+            else:
+                allv = alt.args[1] if is_col(alt.args[1]) else alt.args[2]
+                same = allv.op == "sub" and allv.args[1].key() == colname.key() and allv.args[0].key() == isin.args[0].args[0].key()
+                col.check(same, R, fi, f"{name}: 'all' is expanded with the values of the column that is tested", "self.<table>[col] for the same col",
+                          f"'all' becomes `{allv.short(70)}` but membership is tested in `{isin.args[0].short(70)}`: with local scope the two number spaces differ "
+                          f"and 'all' selects only part of the view", node=call)
         sc = next((c for c in ex.calls if isinstance(c.func, ast.Attribute) and c.func.attr == "_set_controlled_by_param"), None)
         col.check(sc is not None and unparse(sc.args[0]) == fi.params[1], R, fi, f"{name}: view is labelled with its key", "",
                   "the view is not labelled with the selection key", node=sc or fi.node)
